@@ -299,6 +299,32 @@ for i := range 3 { acc += mk(i)()() }
 				evalBody("import m\nm.double(1)", risor.WithImporter(im)),
 			}
 		}},
+		{Name: "a host-built slice iterator over a new struct type vs the first conversion of another struct type", Make: func() []Body {
+			// object.NewSliceIter is an entry point of its own into the Go type registries (no script-level iteration
+			// goes through it): the host builds the iterator inside its evaluation
+			return []Body{
+				func() string {
+					it, err := object.NewSliceIter([]StructA{*a(), *a2()})
+					if err != nil {
+						return "error: " + err.Error()
+					}
+					return evalBody(`out := []; for i, v := range it { out.append(v.F) }; out`, risor.WithGlobal("it", it))()
+				},
+				evalBody(`[s.V, s.Tags["k"]]`, risor.WithGlobal("s", b())),
+			}
+		}},
+		{Name: "two host-built slice iterators over slices of slices of one struct type", Make: func() []Body {
+			mk := func(n int) Body {
+				return func() string {
+					it, err := object.NewSliceIter([][]StructA{{*a()}, {*a2(), *a()}})
+					if err != nil {
+						return "error: " + err.Error()
+					}
+					return evalBody(`out := []; for i, v := range it { out.append(len(v) + n) }; out`, risor.WithGlobal("it", it), risor.WithGlobal("n", n))()
+				}
+			}
+			return []Body{mk(10), mk(20)}
+		}},
 		sharedCode(),
 		clones(),
 	}, codecScenarios()...)
